@@ -304,6 +304,15 @@ def globals_(ctx, P):
                     if txt.startswith("ciw.") or txt.startswith("getcontext()."):
                         n += 1
                         ob.ok("%s:%s" % (q, txt), "%s: %s" % (q, unparse(x)[:60]))
+                        # ... and what is written there must not depend on the process-global state itself (what an earlier simulation left behind)
+                        if txt == "getcontext().prec":
+                            p_, child = getattr(x, "_parent", None), x
+                            while p_ is not None and p_ is not fn:
+                                if isinstance(p_, (ast.If, ast.While)) and any("getcontext(" in unparse(y) or unparse(y).startswith("ciw.") for y in ast.walk(p_.test) if isinstance(y, (ast.Call, ast.Attribute))):
+                                    ctx.violation(ob, "R10.global-state", q, unparse(p_.test)[:80], "global-write-depends-on-global-state",
+                                                  "whether the decimal precision is set depends on the precision found in the process: the second of two exact simulations "
+                                                  "then runs with the first one's precision", loc(p_))
+                                child, p_ = p_, getattr(p_, "_parent", None)
                         in_sim_ctor = q == "Simulation.__init__" or (ci is not None and ci.name == "Simulation" and set(rules.effective_names(P, ci, fn)) == {"__init__"})
                         if (q == "seed" and txt == "ciw.rng") or (in_sim_ctor and txt == "getcontext().prec"):
                             continue        # (a helper that only the constructor calls is part of the constructor)
